@@ -27,3 +27,5 @@ type mxGhost struct{}
 func (m *Monitor) checkC08Mx(g *Gen, w []string, out string) {}
 
 func (e *Env) mxEchoOut(line string) (string, bool) { return "", false }
+
+func (m *Monitor) checkC01Mx(g *Gen, w []string, out string, b, a *snapshot) {}
